@@ -446,7 +446,11 @@ def gen_stats_tree(rng):
             kind = rng.choice(['text', 'text', 'text', 'binary', 'empty', 'absent', 'unparsable'])
             meta = {'path': 'f%d' % fi}
             if rng.random() < 0.3:
-                meta['stats'] = {'custom': [1], 'insertions': 5, 'deletions': 6, 'lines changed': 11}
+                # figures a file "already had" need not be consistent with each other: sums use what is reported
+                meta['stats'] = rng.choice([{'custom': [1], 'insertions': 5, 'deletions': 6, 'lines changed': 11},
+                                            {'lines changed': 7, 'blobs': 1},
+                                            {'insertions': 2, 'deletions': 1, 'lines changed': 10},
+                                            {'custom': 'only'}, {'insertions': 4}, {'deletions': 3, 'lines changed': 0}])
             o = {}
             content = None
             counts = None
@@ -680,9 +684,12 @@ def run_ops_impl(ops):
                            'diff': getattr(obj, 'diff_section', None)}[o[3]]
                     sec.options[o[4]] = sl.pyval(o[5])
                 elif n == 'to_bytes':
+                    # the public entry point AND one shared writer object: both must give the same bytes
+                    b1 = trees[o[1]].to_bytes()
                     with io.BytesIO() as st:
                         writer.write_stream(trees[o[1]], st)
-                        out = H(st.getvalue())
+                        b2 = st.getvalue()
+                    out = H(b1) if b1 == b2 else '(to_bytes-differs-from-write_stream)'
                 elif n == 'eq':
                     a, b = trees[o[1]], trees[o[2]]
                     r = (a == b)
@@ -829,7 +836,18 @@ class Alias(Family):
 
     def cases(self, tier, rng, prop_id):
         for i in range(400 if tier == 'quick' else 8000):
-            yield dict(kind='ops', ops=gen_ops(rng, rng.randint(8, 20)))
+            ops = gen_ops(rng, rng.randint(8, 20))
+            if i % 4 == 0:
+                # a serialisation that FAILS part-way (text not encodable / metadata not serialisable), then the other
+                # trees are serialised again: a failure must leave nothing behind
+                ntrees = sum(1 for o in ops if o[0] in ('new', 'parse'))
+                bad = rng.choice([[['preamble', {'s': 'caf\u00e9'}], ['preamble_encoding', {'s': 'ascii'}]],
+                                  [['preamble', {'s': 'x'}], ['preamble_encoding', {'s': 'nope'}]]])
+                ops = ops + [['to_bytes', j] for j in range(ntrees)] + [['new', bad], ['add_change', ntrees, []],
+                                                                          ['add_file', ntrees, 0, [['meta', {'d': {'p': 1}}]]],
+                                                                          ['to_bytes', ntrees]] + \
+                    [['to_bytes', j] for j in range(ntrees)] + [['to_bytes', j] for j in range(ntrees)]
+            yield dict(kind='ops', ops=ops)
 
     def _impl(self, c):
         if '_impl' not in c:
@@ -881,6 +899,9 @@ class Alias(Family):
                                 % k))
             if res == 'eq-ne-inconsistent':
                 out.append(('C19', 'eq-ne-inconsistent', 'op %d: == and != disagree' % k))
+            if n == 'to_bytes' and res == '(to_bytes-differs-from-write_stream)':
+                out.append(('C18', 'serialise-not-deterministic', 'op %d: DiffX.to_bytes() and a DOM writer give different '
+                            'bytes for the same tree' % k))
             if n == 'to_bytes' and res.startswith('#'):
                 key = tree_sx(snaps[o[1]])
                 if key in last_bytes and last_bytes[key] != res:
@@ -890,6 +911,40 @@ class Alias(Family):
             if out:
                 break
         return out
+
+
+CHOICES = {'line_endings': {'unix', 'dos'}, 'mimetype': {'text/plain', 'text/markdown'}, 'type': {'text', 'binary'},
+           'format': {'json'}, 'version': {'1.0'}}
+
+
+def ill_typed_option(snaps):
+    """First option in any live tree whose stored value is not of the declared type / choice (None if all are fine)."""
+    def check(where, opts):
+        for k, v in opts.items():
+            if v is None:
+                continue
+            if k == 'indent':
+                if not (isinstance(v, dict) and set(v) == {'i'} and v['i'] >= 0):
+                    return '%s indent=%r' % (where, v)
+            elif k == 'encoding':
+                if not (isinstance(v, dict) and set(v) == {'s'}):
+                    return '%s encoding=%r' % (where, v)
+            elif k in CHOICES:
+                if not (isinstance(v, dict) and set(v) == {'s'} and v['s'] in CHOICES[k]):
+                    return '%s %s=%r' % (where, k, v)
+        return None
+    for ti, t in enumerate(snaps):
+        secs = [('tree %d main' % ti, t['opts']), ('tree %d preamble' % ti, t['pre']['opts']), ('tree %d meta' % ti, t['meta']['opts'])]
+        for ci, ch in enumerate(t['changes']):
+            secs += [('change %d' % ci, ch['opts']), ('change %d preamble' % ci, ch['pre']['opts']), ('change %d meta' % ci, ch['meta']['opts'])]
+            for fi, f in enumerate(ch['files']):
+                secs += [('file %d.%d' % (ci, fi), f['opts']), ('file %d.%d meta' % (ci, fi), f['meta']['opts']),
+                         ('file %d.%d diff' % (ci, fi), f['diff']['opts'])]
+        for where, o in secs:
+            r = check(where, o)
+            if r:
+                return r
+    return None
 
 
 def numeric_only_difference(a, b):
@@ -935,6 +990,12 @@ class Attrs(Family):
                 for a in names + ['bogus', 'content', 'length', 'meta_content', 'preamble_content', 'diff_content']:
                     for v in CANDIDATES:
                         yield dict(kind='assign', ops=base + [['set', 0, p, a, v], ['to_bytes', 0]])
+            # the same attribute assigned twice in a row: a valid value first, then an ==-equal value of another type
+            for first, second in [({'i': 1}, {'bool': True}), ({'i': 0}, {'bool': False}), ({'i': 1}, 'other'),
+                                  ({'i': 4}, {'s': '4'}), ({'bool': True}, {'i': 1})]:
+                for p in ('main', ['c', ci]):
+                    yield dict(kind='assign', ops=base + [['set', 0, p, 'preamble_indent', first],
+                                                          ['set', 0, p, 'preamble_indent', second], ['to_bytes', 0]])
             for a in ['bogus', 'lenght', 'diff', 'preamble_bogus']:
                 yield dict(kind='ctor', ops=[['new', [[a, {'s': 'x'}]]], ['new', []], ['add_change', 0, [[a, {'s': 'x'}]]]])
                 if a != 'diff':
@@ -969,6 +1030,15 @@ class Attrs(Family):
     def oracle(self, c, obs):
         out = Alias.oracle(self, c, obs)
         obs_s, steps, orc = self._impl(c)
+        # a typed attribute that was assigned WITHOUT raising stores a value of the declared type and allowed choice
+        # (independent statement of the declared types, from the options documented in the specification)
+        if c['kind'] in ('assign', 'ctor') and not any(o[0] == 'opt_put' for o in c['ops']):
+            for o, st in zip(c['ops'], steps):
+                if o[0] in ('set', 'new', 'add_change', 'add_file') and st[0] == 'unit':
+                    bad = ill_typed_option(st[1])
+                    if bad:
+                        out.append(('C19', 'ill-typed-value-stored', '%r was accepted and the tree now holds %s' % (o[:5], bad)))
+                        break
         # unknown constructor attributes are rejected (on the root object, a change and a file alike)
         known = {'new': set(ATTRS_MAIN), 'add_change': set(ATTRS_CHANGE), 'add_file': set(ATTRS_FILE)}
         for o, st in zip(c['ops'], steps):
